@@ -34,6 +34,10 @@ pub enum Op {
     /// generator g is *moved to a freshly spawned thread*, fed pool[off .. off+len] and finalized (option setting o)
     /// and cloned there, then moved back: a generator is plain data, who touches it on which thread must not matter
     ThreadHop { g: u8, off: u32, len: u32, o: u8 },
+    /// two *different* inputs of the same length whose checksums collide (searched for; 1-byte-checksum variants), fed
+    /// one after the other to fresh generators living in the SAME slot (same address), each finalized: every cheap
+    /// summary of the two states (address, length, checksum) is equal, the results must not be
+    Collide { g: u8, seed: u64, n: u16 },
 }
 
 /// Moves a generator to another thread without requiring `Send` from the type (a tree whose generator stops being
@@ -81,6 +85,7 @@ fn kind_code(op: &Op) -> u64 {
         Op::Reset { .. } => 8,
         Op::CloneFrom { .. } => 9,
         Op::ThreadHop { .. } => 10,
+        Op::Collide { .. } => 11,
     }
 }
 
@@ -246,6 +251,47 @@ fn run<K: Kind>(h: &Hist, pool: &[u8], st: &mut Stats, fnv: &mut Fnv, states: &m
                     }
                 }
             }
+            Op::Collide { g, seed, n } => {
+                let i = gi(*g);
+                let n = (*n as usize).clamp(10, 400);
+                let bytes = |sd: u64| {
+                    let mut v = vec![0u8; n];
+                    Rng::new(sd).fill(&mut v);
+                    v
+                };
+                let ck = |d: &[u8]| -> Option<[u8; 3]> {
+                    let mut t = K::new_gen();
+                    t.update(d);
+                    t.finalize_with_options(&options(28)).ok().map(|h| {
+                        let mut o = [0u8; 3];
+                        K::ck_data(&h, &mut o);
+                        o
+                    })
+                };
+                let a = bytes(*seed);
+                let mut b = bytes(seed.wrapping_add(1));
+                if K::CKSUM == 1 {
+                    if let Some(cka) = ck(&a) {
+                        for k in 1..4000u64 {
+                            let cand = bytes(seed.wrapping_add(k));
+                            if cand != a && ck(&cand) == Some(cka) {
+                                b = cand;
+                                st.hit("probe.checksum_collision_found");
+                                break;
+                            }
+                        }
+                    }
+                }
+                st.hit("fault.same_slot_reused_for_colliding_input");
+                for d in [a, b] {
+                    live[i].g = K::new_gen(); // assignment in place: the new generator lives at the old one's address
+                    live[i].g.update(&d);
+                    live[i].seen = d;
+                    if let Some(v) = check_all(&live[i], &[30, 0], fnv) {
+                        return Some(Violation { detail: format!("step {step} (second of two colliding inputs in one slot): {}", v.detail), ..v });
+                    }
+                }
+            }
             Op::ThreadHop { g, off, len, o } => {
                 let i = gi(*g);
                 let off = (*off as usize).min(pool.len());
@@ -378,7 +424,9 @@ impl Scenario for C03 {
                 cursor = (cursor + total).min(len as u32);
                 Op::UpdateChunks { g, off, total, chunk }
             } else if x < 74 {
-                if r.chance(1, 2) {
+                if r.chance(1, 3) {
+                    Op::Collide { g, seed: r.next_u64() & 0xffff_ffff, n: r.range(50, 300) as u16 }
+                } else if r.chance(1, 2) {
                     let l = draw_piece_len(r, len).min(70_000);
                     let off = if sequential { cursor } else { r.below(len as u64 + 1) as u32 };
                     cursor = (cursor + l).min(len as u32);
@@ -501,6 +549,7 @@ impl Scenario for C03 {
                 Op::Reset { g, via_default } => format!("Reset({g},{})", *via_default as u8),
                 Op::CloneFrom { dst, src } => format!("CloneFrom({dst},{src})"),
                 Op::ThreadHop { g, off, len, o } => format!("ThreadHop({g},{off},{len},{o})"),
+                Op::Collide { g, seed, n } => format!("Collide({g},{seed},{n})"),
             })
             .collect();
         json!({"variant": VARIANT_NAMES[h.variant as usize], "variant_id": h.variant, "pool": h.pool.to_json(), "ops": ops,
@@ -554,6 +603,10 @@ impl Scenario for C03 {
                 "CloneFrom" => {
                     need(2)?;
                     Op::CloneFrom { dst: args[0] as u8, src: args[1] as u8 }
+                }
+                "Collide" => {
+                    need(3)?;
+                    Op::Collide { g: args[0] as u8, seed: args[1] as u64, n: args[2] as u16 }
                 }
                 "ThreadHop" => {
                     need(4)?;
